@@ -44,7 +44,9 @@ var pool = []string{
 	"2147483647", "2147483648", "-2147483648", "-2147483649",
 	"9007199254740992", "9007199254740993", "-9007199254740993",
 	"9223372036854775807", "9223372036854775806", "-9223372036854775808", "-9223372036854775807",
-	"65536", "65537", "4294967296",
+	"65536", "65537", "4294967296", "4294967295", "3037000500", "-3037000500",
+	// the null object (an untouched array element)
+	"B 0 get",
 	// reals
 	"0.5", "-1.5", "2.0",
 	// booleans, names
@@ -212,10 +214,96 @@ func tupleFamily(name string, spaces []tupleSpace, budget time.Duration) mc.Fami
 }
 
 // ---------------------------------------------------------------------------
+// integer boundaries
+
+// boundaryInts: 2^k-1, 2^k, 2^k+1 and their negatives for the k where a
+// 64-bit implementation can go wrong, plus the neighbourhood of sqrt(2^63)
+// and of 2^32 (products of two such values straddle 2^63 and 2^64).
+var boundaryInts = func() []string {
+	seen := map[int64]bool{}
+	var out []string
+	add := func(v int64) {
+		if !seen[v] {
+			seen[v] = true
+			out = append(out, fmt.Sprint(v))
+		}
+	}
+	for _, k := range []uint{0, 1, 2, 7, 8, 15, 16, 24, 31, 32, 33, 48, 52, 53, 62} {
+		for d := int64(-1); d <= 1; d++ {
+			add(int64(1)<<k + d)
+			add(-(int64(1)<<k + d))
+		}
+	}
+	for _, v := range []int64{3037000498, 3037000499, 3037000500, 3037000501, 4294967295, 4294967297, 6074000999, 2654435761, 3000000000,
+		9223372036854775807, 9223372036854775806, -9223372036854775807, -9223372036854775808, 4611686018427387904, 4611686018427387903,
+		10, 100, 1000000007, 5, -5, 3, -3} {
+		add(v)
+		add(-v)
+	}
+	return out
+}()
+
+var binaryNumOps = []string{"add", "sub", "mul", "idiv", "mod", "div", "eq", "ne", "lt", "le", "gt", "ge", "and", "or", "xor", "bitshift", "max", "min", "exp", "atan"}
+var unaryNumOps = []string{"neg", "abs", "not", "cvi", "cvr", "round", "truncate", "floor", "ceiling", "sqrt", "ln", "log", "cvn", "cvs", "cvx", "string", "array", "dict"}
+
+func boundaryFamily(budget time.Duration) mc.Family {
+	have := map[string]bool{}
+	for _, o := range operators {
+		have[o] = true
+	}
+	var bin, un []string
+	for _, o := range binaryNumOps {
+		if have[o] {
+			bin = append(bin, o)
+		}
+	}
+	for _, o := range unaryNumOps {
+		if have[o] {
+			un = append(un, o)
+		}
+	}
+	nb := len(boundaryInts)
+	return mc.Family{
+		Name:   "integer-boundaries",
+		Items:  nb * (len(bin) + 1),
+		Budget: budget,
+		Rule: fmt.Sprintf("every binary arithmetic, comparison and bitwise operator the library has (%v) applied to every ordered pair of %d boundary integers (+-(2^k-1), +-2^k, +-(2^k+1) for k in {0,1,2,7,8,15,16,24,31,32,33,48,52,53,62}, the neighbourhood of sqrt(2^63) and of 2^32, min/max int, small values), and every unary numeric operator (%v) to each; item = (first operand, operator), Choose = second operand; non-trivial = the reference defines the result", bin, nb, un),
+		Body: func(c *mc.Ctx, item int) mc.Verdict {
+			a := boundaryInts[item%nb]
+			oi := item / nb
+			var prog, op string
+			if oi < len(bin) {
+				op = bin[oi]
+				prog = a + " " + boundaryInts[c.Choose(nb)] + " " + op
+			} else {
+				op = un[c.Choose(len(un))]
+				prog = a + " " + op
+			}
+			pr := psrun.NewPair(opTable)
+			r := pr.Step(prog)
+			c.Step()
+			if !r.OK {
+				v := mc.Fail(fmt.Sprintf("C02:boundary:%s:%s", op, r.Class), fmt.Sprintf("program `%s`: %s", prog, r.Detail))
+				v.Render = prog
+				return v
+			}
+			v := mc.Pass(r.Outcome, !r.Skipped)
+			if c.Render() {
+				v.Render = prog + "  → " + r.Outcome + " stack [" + pscmp.ShowStack(pr.I.Stack) + "]"
+			}
+			return v
+		},
+		Describe: func(item int) string { return boundaryInts[item%nb] + " with operator group " + fmt.Sprint(item/nb) },
+		CrashKey: func(item int) string { return "C02:crash:boundary" },
+	}
+}
+
+// ---------------------------------------------------------------------------
 // operator sequences
 
 var startStates = []string{
 	"",
+	"/n 1 array 0 get def 2 dict begin /x 5 def /n 7 def 1 dict begin /x 1 array 0 get def", // null values that shadow / are shadowed
 	"1 2 3",
 	"mark 1 (ab)",
 	"[1 2 3] dup 1 2 getinterval",
@@ -234,6 +322,8 @@ var macroOps = []string{
 	"get", "put", "getinterval", "putinterval", "length",
 	// dictionaries
 	"begin", "end", "def", "load", "known", "where", "currentdict", "userdict",
+	// a second name, executed names (values found through the dictionary stack)
+	"/n", "x", "n",
 }
 
 func canonical(m *psmodel.M) []byte {
@@ -403,6 +493,7 @@ func main() {
 			}
 			return []mc.Family{
 				tupleFamily("operand-tuples", spaces, budget),
+				boundaryFamily(budget),
 				seqFamily(depth, budget),
 			}
 		},
